@@ -171,7 +171,9 @@ RUNTIME = {
     "C13": ["FlowSampler.terminate_run", "FlowSampler.safe_exit"],
     "C16": ["draw_posterior_samples", "effective_sample_size",
             "_BaseNSIntegralState.effective_n_posterior_samples"],
-    "C20": ["FlowModel.prep_data"],
+    # (FlowModel.prep_data is not listed: its shape has abstract methods --
+    # initialise, check_batch_size -- which the generic harness cannot stub
+    # on the real object; it used to be skipped silently as a harness limit)
 }
 
 
